@@ -289,6 +289,8 @@ func errClass(err error) string {
 	return "other"
 }
 
+var metricsMode bool
+
 type runner struct {
 	hdr     M
 	sc      M
@@ -546,7 +548,13 @@ func (r *runner) run() {
 			timeout = time.Duration(num(ms)) * time.Millisecond
 		}
 	}
+	if metricsMode {
+		r.ev(M{"ev": "metrics", "at": "start", "m": gatherMetrics()})
+	}
 	r.conn = bmc.NewV2SessionlessTransportVerif(r.mt, timeout, backoff.NewConstantBackOff(0))
+	if metricsMode {
+		r.ev(M{"ev": "metrics", "at": "dial", "m": gatherMetrics()})
+	}
 
 	var steps []any
 	nprefix := 0
@@ -638,6 +646,9 @@ func (r *runner) run() {
 			if (s["api"] == "NewV2Session" || s["api"] == "NewSession") && ret["err"] == false {
 				r.mt.inSess = true
 			}
+			if metricsMode && !quiet {
+				r.ev(M{"ev": "metrics", "at": "ret", "m": gatherMetrics()})
+			}
 			if quiet {
 				// handshake events of a shared prefix are not part of this family's trace
 				ok := ret["err"] == false && ret["panic"] == nil
@@ -645,6 +656,9 @@ func (r *runner) run() {
 				if !ok {
 					r.ev(M{"ev": "prefixFailed", "errText": ret["errText"], "panic": ret["panic"]})
 					return
+				}
+				if metricsMode {
+					r.ev(M{"ev": "metrics", "at": "prefix", "m": gatherMetrics()})
 				}
 			}
 			i = j
